@@ -35,7 +35,7 @@ IndexLaw == \A t \in IdxTokens : AtoiOK(t) = IndexOK(t)
 Mark == <<R_0, R_1, R_2, R_3, R_4, R_5, R_6>>
 T(i) == [const |-> Num(Mark[i])]
 \* (a key that is not spelled over the alphabet is one atom: it contains nothing the pointer syntax cares about)
-SpecialKeys == {<<"U_e1">>, <<"$ref">>, <<"#">>, <<"?">>, <<"0", "1">>}
+SpecialKeys == {<<"U_e1">>, <<"$ref">>, <<"#">>, <<"?">>, <<"0", "1">>, <<"U_e1", "/", "a">>, <<"~", "U_e1">>}
 KeyStrs == {Join(k) : k \in Tokens \cup SpecialKeys}
 PropR(rf) == [properties |-> [r |-> [ref |-> rf]]]
 Dr(kw) == IF kw \in {"itemsArray", "additionalItems", "depSchemas", "definitions"} THEN "d7" ELSE "2020"
@@ -90,6 +90,11 @@ ShadowCases ==
   \cup {[u |-> Doc1([properties |-> ("T" :> [properties |-> [x |-> T(1)]]) @@ (Join(ShadowKey) :> T(2))
                                     @@ [r |-> [ref |-> LocalRef(FragPtr(<<SegN("properties", "T"), SegN("properties", "x")>>))]]]),
           kw |-> "properties", keys |-> (Join(ShadowKey) :> ShadowKey)]}
+\* two keys that differ only in a character beyond ASCII whose low byte is the other key's character, both
+\* needing an escape: unescaping works on the text, whatever it contains
+TruncKeys == ("U_L/x" :> <<"U_L", "/", "x">>) @@ ("A/x" :> <<"A", "/", "x">>)
+TruncTwins == {[u |-> Doc1(Stamp(kw, (kw :> ((pr[1] :> T(1)) @@ (pr[2] :> T(2)))) @@ PropR(LocalRef(FragPtr(<<SegN(kw, pr[1])>>))))), kw |-> kw, keys |-> TruncKeys]
+                 : kw \in {"defs", "definitions", "dependentSchemas"}, pr \in {<<"U_L/x", "A/x">>, <<"A/x", "U_L/x">>}}
 \* depth 2: a keyword under a keyed / indexed parent
 NestCases ==
   {[u |-> Doc1([defs |-> (k :> [properties |-> (k2 :> T(1)) @@ ("zz" :> T(2)), allOf |-> <<T(3)>>])]
@@ -175,7 +180,7 @@ GoodRaw == {<<Join(g[1]), g[2]>> : g \in GoodRawAtoms}
 BadCases == {[u |-> Doc1(BadDoc @@ [properties |-> [p |-> TN(5), r |-> [ref |-> Ref(EmptyURI, [k |-> "raw", s |-> Join(pa)])]] @@ ("p/x" :> TN(6))]), kw |-> "bad", raw |-> Join(pa), atoms |-> pa, want |-> 99] : pa \in BadPtrAtoms}
             \cup {[u |-> Doc1(BadDoc @@ [properties |-> [p |-> TN(5), r |-> [ref |-> Ref(EmptyURI, [k |-> "raw", s |-> Join(g[1])])]] @@ ("p/x" :> TN(6))]), kw |-> "good", raw |-> Join(g[1]), atoms |-> g[1], want |-> g[2]] : g \in GoodRawAtoms}
 
-Cases == CASE Family = "P1" -> SingleCases \cup SeqCases \cup MapCases \cup TwinCases \cup ShadowCases \cup AnchorLikePointer \cup TwoResources \cup NestCases
+Cases == CASE Family = "P1" -> SingleCases \cup SeqCases \cup MapCases \cup TwinCases \cup TruncTwins \cup ShadowCases \cup AnchorLikePointer \cup TwoResources \cup NestCases
            [] Family = "P2" -> BadCases
 
 Init == cs \in Cases /\ phase = "new"
